@@ -94,8 +94,10 @@ Section WithHash.
       end
     end.
 
-  Definition last_prev (bs : list block) : prevblk :=
-    match rev bs with [] => (0, 0, None) | b :: _ => (k_to b, k_id b, Some (k_hash b)) end.
+  (* (to_id, id, hash) of the block with the greatest `previous` = the last block created (previous = id of the predecessor,
+     ids come from a sequence: BlocksProofs.blocks_ok has k_prev < k_id along the list); (0, 0, null) when there is none *)
+  Definition end_of (p : prevblk) (bs : list block) : prevblk := fold_left (fun _ b => (k_to b, k_id b, Some (k_hash b))) bs p.
+  Definition last_prev (bs : list block) : prevblk := end_of (0, 0, None) bs.
 
   Definition find_open (w : nat) (o : list (nat * entry)) : option entry :=
     option_map snd (find (fun x => Nat.eqb (fst x) w) o).
